@@ -1750,11 +1750,10 @@ func (trd *tarReadData) tarReadAll(rs io.ReadSeeker) error {
 			if header.Typeflag == tar.TypeSymlink || header.Typeflag == tar.TypeLink {
 				// normalize target relative to root of tar
 				target := header.Linkname
-				if !filepath.IsAbs(target) {
-					target, err = filepath.Rel(filepath.Dir(name), target)
-					if err != nil {
-						return err
-					}
+				if !filepath.IsAbs(target) && header.Typeflag == tar.TypeSymlink {
+					// a relative symlink is resolved from the directory of the link,
+					// the name of a hard link target is already relative to the root of the tar
+					target = filepath.Join(filepath.Dir(name), target)
 				}
 				target = filepath.ToSlash(filepath.Clean("/" + target)[1:])
 				// track and set handleAdded if an existing handler points to the target
